@@ -3,7 +3,7 @@
 cd "$(dirname "$0")"; MS=${MS:-/tmp/mutsweep}; mkdir -p mutsweep/triage
 sort $MS/stage1.tsv > mutsweep/stage1.tsv
 sort $MS/stage2.tsv > mutsweep/stage2.tsv
-for d in /tmp/tri/*/; do b=$(basename $d); [ -f $d/triage.json ] || continue
+for d in /tmp/tri/[a-h]*/; do b=$(basename $d); [ -f $d/triage.json ] || continue
   cp $d/triage.json mutsweep/triage/$b.json
   for f in $d/zz_m*_test.go; do [ -f "$f" ] && cp $f mutsweep/triage/$(basename $f .go).go.txt; done
 done
